@@ -98,8 +98,8 @@ def dur_ratio(ct, p):
 
 def implicit_ok(src_p, src_rep, dst_p, dst_rep):
     """model of 'Quantity<dst unit, dst rep> implicitly accepts Quantity<src unit, src rep>' for two time units.
-    Returns True/False, or None where the library's answer is a hard error today (finding D3: the integer factor itself
-    is not representable in the destination rep)."""
+    Returns True/False, or None where the integer factor itself is not representable in the destination rep: the policy's
+    answer is then 'no', but on a tree with finding D3 evaluating the trait is a hard error instead."""
     if F.ct_is_float(dst_rep):
         return True
     if F.ct_is_float(src_rep):
@@ -212,7 +212,7 @@ class C17(F.Check):
                 # model: both operands must be implicitly convertible (in the common rep) to the common unit
                 ok1 = implicit_ok(pv, rc, cu, rc)
                 ok2 = implicit_ok(qv, rc, cu, rc)
-                expect = None if (ok1 is None or ok2 is None) else (ok1 and ok2)
+                expect = bool(ok1) and bool(ok2)       # None (factor not representable at all) is refused as well
                 A = dur(r1, pn)
                 B = dur_ratio(r2, qv)
                 for order in ("dq", "qd"):
@@ -290,8 +290,8 @@ class C17(F.Check):
                     key = {"rep": ct, "period": pt, "target": QX}
                     m = implicit_ok(pv, ct, qv, qrep)
                     closed("conv_" + tag, "return std::is_convertible<%s, %s>::value == std::is_convertible<CorrespondingQuantityT<%s>, %s>::value;" % (D, QX, D, QX),
-                           None if m is None else True, "duration is implicitly accepted exactly when its corresponding quantity is", key)
-                    closed("convm_" + tag, "return std::is_convertible<%s, %s>::value;" % (D, QX), m,
+                           (True, "D3") if m is None else True, "duration is implicitly accepted exactly when its corresponding quantity is", key)
+                    closed("convm_" + tag, "return std::is_convertible<%s, %s>::value;" % (D, QX), (False, "D3") if m is None else m,
                            "implicit acceptance of the duration == model predicate of the implicit-conversion policy", key)
                 # a quantity of another dimension never accepts a duration
                 closed("convx_%s_%s" % (sfx(ct), pn), "return std::is_convertible<%s, Quantity<Meters, double>>::value;" % D, False,
@@ -342,7 +342,9 @@ class C17(F.Check):
             # (IEEE) <= / >= are false.  NaN counts are therefore excluded for these two operators (see assumptions).
             nonan = on in ("le", "ge")
 
-            def fn(K, x, y, au=au, rf=rf, r1=r1, r2=r2, f1=f1, f2=f2, narrow=narrow, lo=lo, hi=hi, nonan=nonan):
+            fpres = on in ("add", "sub") and F.ct_is_float(rc)
+
+            def fn(K, x, y, au=au, rf=rf, r1=r1, r2=r2, rc=rc, f1=f1, f2=f2, narrow=narrow, lo=lo, hi=hi, nonan=nonan, fpres=fpres):
                 a = K[au](x, y)
                 r = K[rf](x, y)
                 pre = T.not_(r.ub)
@@ -353,7 +355,11 @@ class C17(F.Check):
                 if narrow:
                     pre = T.and_(pre, T.in_range(T.imul(F.ival(r1, x), T.const_int(f1)), lo, hi),
                                  T.in_range(T.imul(F.ival(r2, y), T.const_int(f2)), lo, hi))
-                return pre, T.and_(T.not_(a.ub), T.eq(a.ret, r.ret))
+                same = T.eq(a.ret, r.ret)
+                if fpres:
+                    # which NaN an addition returns is unspecified: two NaN results count as equal
+                    same = T.or_(same, T.and_(T.fp_isnan(F.FMT_OF[rc], a.ret), T.fp_isnan(F.FMT_OF[rc], r.ret)))
+                return pre, T.and_(T.not_(a.ub), same)
             obs.append(F.Ob("mixed:" + tag, vs, fn, routes=F.FP_ROUTES if isfp else F.INT_ROUTES, key=dict(key, F_d=f1, F_q=f2),
                             kernels=[au, rf], timeout=60 if "long double" in (r1, r2) else None,
                             note="chrono reference does not overflow => au mixed operation does not trap and gives the same result"))
@@ -393,14 +399,16 @@ class C17(F.Check):
         # closed
         for name, expect, note, key in self.closed:
             d = K[name].kernel.dropped
-            if expect is None:
-                # model: the library's answer is a hard error today (known finding D3 of C06), so the kernel line must not compile
-                ob = F.Ob("skip:" + name, [], None, key=dict(key, model="hard error (D3)"))
-                ob.status = "skipped-domain"
-                obs.append(ob)
-                if not d:
-                    self.notes.append("closed kernel %s compiles although the model predicts a hard error (D3 fixed?)" % name)
-                continue
+            if isinstance(expect, tuple):
+                # the integer factor is not representable in the destination rep: on a tree with finding D3 (C06) the trait
+                # itself is a hard error (kernel line dropped, outside the claim); where it compiles, the model's answer holds
+                expect = expect[0]
+                if d:
+                    ob = F.Ob("skip:" + name, [], None, key=dict(key, model="hard error tolerated (D3)"))
+                    ob.status = "skipped-domain"
+                    obs.append(ob)
+                    self.extra_cov["closed_dropped_as_D3"] = self.extra_cov.get("closed_dropped_as_D3", 0) + 1
+                    continue
             if d:
                 ob = F.Ob("skip:" + name, [], None, key=key)
                 ob.status = "skipped-domain"
